@@ -202,7 +202,9 @@ func newWorld(flags Flags) *world {
 		Name:                  "Any",
 		LiteralCoercion:       func(v ast.Value) interface{} { return literalToGo(v) },
 		VariableValueCoercion: func(v interface{}) interface{} { return v },
-		ResultCoercion:        func(v interface{}) interface{} { return v },
+		// results are rendered as a dump string: json-iterator writes Go maps in map-iteration order,
+		// which would make the response text differ from run to run for reasons unrelated to transports
+		ResultCoercion: func(v interface{}) interface{} { return dumpValue(v) },
 	}
 	inType := &graphql.InputObjectType{Name: "In"}
 	inType.Fields = map[string]*graphql.InputValueDefinition{
